@@ -36,6 +36,7 @@ def run(F, rep, tier):
     rep.floor("DISCHARGE", "add_constraint sites", n, 25)
     copy_discipline(F, rep)
     copy_structure(F, rep)
+    c03.pairing(F, rep)
     contradiction_info(F, rep)
 
 
